@@ -301,6 +301,7 @@ func checkC02(c *Ctx) {
 
 	c.dispatchGuard()
 	c.eligibilityPredicate()
+	c.ejectorTotal()
 	c.strategyHealthGuard()
 
 	handle := p.Fn("internal/loadbalancer", "LoadBalancer", "handleRequest")
@@ -523,9 +524,15 @@ func (c *Ctx) eligibilityPredicate() {
 				for j := lock; j < set; j++ {
 					r := c.condRel(t.Items[j])
 					if o, ok := r.Orient(beT+"IsHealthy", ""); ok && o.Y == "" && o.Lo == 0 && o.Hi == 0 && !o.Neq {
+						if live, why := c.loadedUnder(t.Items[j], beT+"IsHealthy", beT+"Mutex", 'W'); !live {
+							return "re-admission re-check uses a stale health flag: " + why
+						}
 						okFlag = true
 					}
 					if o, ok := r.Orient("now", beT+"UnhealthyUntil"); ok && o.Lo == 1 && o.Hi == posInf {
+						if live, why := c.loadedUnder(t.Items[j], beT+"UnhealthyUntil", beT+"Mutex", 'W'); !live {
+							return "re-admission re-check uses a stale window: " + why + " — an expiry check racing a fresh ejection re-admits the freshly ejected backend"
+						}
 						okWin = true
 					}
 				}
@@ -568,6 +575,7 @@ func checkC04(c *Ctx) {
 		return k == beT+"IsHealthy" || k == beT+"UnhealthyUntil" || k == "loadbalancer.healthChecker.unhealthyBackends"
 	})
 	c.healthWriters()
+	c.ejectorTotal()
 	c.passiveThreshold()
 	c.probeEdges()
 	c.healthMirror()
@@ -691,6 +699,36 @@ func (c *Ctx) healthWriters() {
 				"derived from the configuration field", "not derived from the documented configuration field: "+got[k]+" (want "+want[k]+")")
 		}
 	}
+}
+
+// ejectorTotal: every call of MarkBackendUnhealthy ejects — sets the flag, (re)opens the window
+// and mirrors it — on every path (C02/C04).
+func (c *Ctx) ejectorTotal() {
+	p := c.P
+	fn := p.Fn("internal/loadbalancer", "LoadBalancer", "MarkBackendUnhealthy")
+	c.traceRule("ejector-always-ejects", "loadbalancer.(*LoadBalancer).MarkBackendUnhealthy", fn, c.healthSpec(),
+		"every path stores IsHealthy=false and UnhealthyUntil=now+duration under the backend's write lock",
+		func(t *Trace) string {
+			fi := t.Index("store IsHealthy := k:false", 0)
+			wi := -1
+			for i, it := range t.Items {
+				if strings.HasPrefix(it.Label, "store UnhealthyUntil := add(now,") {
+					wi = i
+				}
+			}
+			if fi < 0 {
+				return "a path through MarkBackendUnhealthy does not mark the backend unhealthy"
+			}
+			if wi < 0 {
+				return "a path through MarkBackendUnhealthy does not (re)open the unhealthy window: an ejection of an already ejected backend keeps the older deadline and the backend is re-admitted inside its new window"
+			}
+			for _, at := range []int{fi, wi} {
+				if prevLabel(t, at, "lock:be:", "unlock:be:") != "lock:be:W" {
+					return "ejection state written outside the backend's write lock"
+				}
+			}
+			return ""
+		})
 }
 
 // passiveThreshold: C04 clause 2.
